@@ -204,6 +204,7 @@ fn cmd_replay(path: &str, dump: bool) -> i32 {
 
 fn cmd_check(prop: &str, tier: &str) -> i32 {
     let t0 = std::time::Instant::now();
+    crate::gen::THOROUGH.store(tier == "thorough", std::sync::atomic::Ordering::SeqCst);
     let seed = base_seed();
     let n = tier_runs(prop, tier);
     let workers = std::env::var("DST_WORKERS").ok().and_then(|s| s.parse().ok()).unwrap_or(16usize);
